@@ -1,7 +1,7 @@
 /-
 Model driver for C18 (modules). One request line = one scenario:
 
-  run (cfg <runImportTests 0|1> <hostTests 0|1> <exportAlias 0|1> <canonFile 0|1> <exportStrAlias 0|1> <exportsFirst 0|1>
+  run (cfg <runImportTests 0|1> <hostTests 0|1> <exportAlias 0|1> <canonFile 0|1> <exportStrAlias 0|1> <exportsFirst 0|1> <wildRefresh 0|1>
        (stems (<name> <stem>)*) <prelude name>*) (fs <file>*) (ops <op>*)
   file  = (f <path> bad) | (f <path> <tact>*)
   path  = (p (<dir name>*) <name> <0|1 isDir>)
@@ -10,10 +10,10 @@ Model driver for C18 (modules). One request line = one scenario:
   act   = (print mk) | (export k v) | (assign k v) | (exportid k src) | (show mk k) | (import <item>*)
         | (from m <item>*) | (fromall m) | (try m mk) | (fail mk)
         | (pat <0|1 export> (<target>*) (<rhs>*)) | (cmp k <op> <rhs>) | (loop n k <op> <rhs>)
-        | (cond <form> k v) | (cb <last> k)        op = add | sub | mul | rem | pow
+        | (cond <form> k v) | (cb <last> k) | (tshow mk k)        op = add | sub | mul | rem | pow
   target = (id k) | (ign) | (map <entry>*)      entry = (e key target) | (e key _)
   rhs   = (lit n) | (ref k)
-  item  = (i <ref>) | (i <ref> alias)     ref = name | (r name <0|1 string> <seg>*)   seg = name | ..
+  item  = (i <ref>) | (i <ref> alias)     ref = name | (r name <0|1 string> <seg>* [(sub <name>*)])   seg = name | ..
   op    = (op (<dir name>*) <0|1 exportTop> <tact>*)
 
 Response: one group per operation, separated by " | ":
@@ -96,8 +96,15 @@ def pSeg : Sexp → Option (Option Nat)
 
 /-- `name` (an id) or `(r name <0|1 str> seg*)` -/
 def pRef : Sexp → Option Ref
-  | .list (.atom "r" :: n :: st :: segs) => do
-    pure { name := (← n.nat?), str := (← st.nat?) == 1, segs := (← segs.mapM pSeg) }
+  | .list (.atom "r" :: n :: st :: rest) => do
+    let subs := rest.filterMap (fun x => match x with
+      | .list (.atom "sub" :: ks) => some ks
+      | _ => none)
+    let segs := rest.filter (fun x => match x with
+      | .list _ => false
+      | _ => true)
+    pure { name := (← n.nat?), str := (← st.nat?) == 1, segs := (← segs.mapM pSeg),
+           sub := (← (subs.headD []).mapM Sexp.nat?) }
   | x => do pure { name := (← x.nat?) }
 
 def pItem : Sexp → Option Item
@@ -139,6 +146,7 @@ def pAct : Sexp → Option Act
     let r ← pRef m
     pure (.tryImport { r with str := true } (← mk.nat?))
   | .list [.atom "fail", mk] => do pure (.fail (← mk.nat?))
+  | .list [.atom "tshow", mk, k] => do pure (.tryShow (← mk.nat?) (← k.nat?))
   | .list [.atom "cmp", k, op, r] => do pure (.compound (← k.nat?) (← pCOp op) (← pRhs r))
   | .list [.atom "loop", n, k, op, r] => do pure (.loopCompound (← n.nat?) (← k.nat?) (← pCOp op) (← pRhs r))
   | .list [.atom "cond", f, k, v] => do pure (.condAssign (← f.nat?) (← k.nat?) (← v.int?))
@@ -173,7 +181,7 @@ def fuelFor (files : List (Path × File)) : Nat := 6 * files.length + 8
 
 def handle (line : String) : String :=
   match parseLine line with
-  | [.atom cmd, .list (.atom "cfg" :: it :: ht :: al :: cf :: sa :: ef :: .list (.atom "stems" :: stems) :: pre),
+  | [.atom cmd, .list (.atom "cfg" :: it :: ht :: al :: cf :: sa :: ef :: wr :: .list (.atom "stems" :: stems) :: pre),
       .list (.atom "fs" :: files), .list (.atom "ops" :: ops)] =>
     let ghost := cmd == "rung"
     let stems := stems.filterMap (fun x => match x with
@@ -183,7 +191,7 @@ def handle (line : String) : String :=
     | some it, some ht, some al, some pre, some files, some ops =>
       let cfg : Cfg := { runImportTests := it == 1, hostTests := ht == 1, exportAlias := al == 1,
                          canonFile := cf.nat? == some 1, exportStrAlias := sa.nat? == some 1,
-                         exportsFirst := ef.nat? == some 1,
+                         exportsFirst := ef.nat? == some 1, wildRefresh := wr.nat? == some 1,
                          stem := fun n => ((stems.find? (fun x => x.1 == n)).map (·.2)).getD n,
                          prelude := fun n => if pre.contains n then some (if n ≥ 90 ∧ n ≤ 92 then .native n else .core n) else none }
       let fs := mkFS files
